@@ -348,3 +348,7 @@ def run(ctx):
                 kinds[e["e"]] = kinds.get(e["e"], 0) + 1
     ctx.evaluations = sum(kinds.values())
     ctx.extra["events_by_kind"] = kinds
+    # the same parsers on several threads at once (Stateless.tla): one outcome per operation whoever performs it, and a
+    # ThreadSanitizer pass over the same scenarios (hidden shared state is a data race whatever the schedule)
+    from checks import stateless_common
+    stateless_common.drive(ctx, ["uri", "pct"], thorough, n=40 if not thorough else 1000)
